@@ -89,7 +89,7 @@ def write_files(obj, fmt="text", variant=None, tag=""):
         else:
             mat.write_text(p, inp, missing_token=variant.get("missing_token", "-999"),
                            row_order=variant.get("row_order"), col_order=variant.get("col_order"),
-                           rng=variant.get("rng"))
+                           rng=variant.get("rng"), time_format=variant.get("time_format", "unixtime"))
         paths.append(p)
     clim = paths.pop() if obj.get("hasClim") else None
     return paths, clim
